@@ -251,6 +251,17 @@ def run_ecdsamixed(ctx, spec):
         rng, n, rng.randint(1, 6)))
     dW, pubW = sigs.issuer(rng, curve)
     kind = rng.choice(['msb', 'prefix', 'postfix', 'u2f', 'gmp'])
+    if b == 0:
+      # first batch of every shard: the weak issuer sits on the first curve
+      # of the registry and honest issuers on later curves share the batch
+      # (whatever is kept per curve must not be read on the next curve)
+      kind = ['u2f', 'msb', 'gmp'][int(spec['shard'][-1]) % 3]
+      curve = 'CURVE_SECP256R1'
+      n = gen.model_curve(curve).n
+      d, pub = sigs.issuer(rng, curve)
+      healthy = sigs.sign_many(rng, curve, d, pub, sigs.nonces_uniform(
+          rng, n, 2))
+      dW, pubW = sigs.issuer(rng, curve)
     if kind == 'u2f':
       ks = sigs.nonces_u2f(rng, n, 2)
     elif kind == 'gmp':
@@ -268,6 +279,14 @@ def run_ecdsamixed(ctx, spec):
                               rng.below(no - 1) + 1, gen.msg_hash(rng), pub))
     batch = [('h', a) for a in healthy] + [('w', a) for a in weak]
     rng.shuffle(batch)
+    if b == 0:
+      batch = [('w', a) for a in weak] + [('h', a) for a in healthy]
+      for oc in rng.sample([c for c in gen.STRONG if c != curve], 3):
+        do, pubo = sigs.issuer(rng, oc)
+        batch += [('h', a) for a in sigs.sign_many(
+            rng, oc, do, pubo, sigs.nonces_uniform(
+                rng, gen.model_curve(oc).n, len(weak) + 1))]
+      ctx.count('weak_first_curve_batches')
     paranoid.CheckAllECDSASigs([a for _, a in batch])
     ctx.count('mixed_batches')
     for t, a in batch:
@@ -367,5 +386,5 @@ def finalize(agg, tier):
           'healthy_rsa_keys_with_weak_neighbours',
           'healthy_signatures_with_weak_neighbours', 'mixed_batches',
           'healthy_batches', 'resubmitted_healthy_artifacts',
-          'padded_field_encodings']
+          'padded_field_encodings', 'weak_first_curve_batches']
   return [], ['reach counter %s is zero' % k for k in need if not c.get(k)]
